@@ -37,8 +37,8 @@ func C06(r *core.Report) {
 			checkReentrant(r, "C06.R7", f, "reads")
 		}
 	}
-	r.Floor("C06.R0", 5)
-	r.Floor("C06.R1", 2)
+	r.Floor("C06.R0", 4)
+	r.Floor("C06.R1", 1)
 	r.Floor("C06.R2", 1)
 	r.Floor("C06.R3", 1)
 	r.Floor("C06.R4", 1)
@@ -50,7 +50,7 @@ func C06(r *core.Report) {
 	c06DedupAfterSort(r)
 	c06NoEntryPooling(r)
 	r.Floor("C06.R10", 1)
-	r.Floor("C06.R9", 5)
+	r.Floor("C06.R9", 4)
 	r.Floor("C06.R8", 2)
 }
 
